@@ -235,6 +235,25 @@ func (m *Mux) serve(w *ResponseWriter, req *Request) {
 		return
 	}
 	w.logger.Error("no matching handler found for request and returning internal error", "op", op, "connID", w.connID, "requestID", w.requestID, "routeOp", req.routeOp)
-	resp := req.NewResponse(WithResponseCode(ResultUnwillingToPerform), WithDiagnosticMessage("No matching handler found"))
+	resp := req.NewResponse(WithApplicationCode(responseCodeFor(req.routeOp)), WithResponseCode(ResultUnwillingToPerform), WithDiagnosticMessage("No matching handler found"))
 	_ = w.Write(resp)
+}
+
+// responseCodeFor returns the application code of the response that answers a
+// request of the given operation, so a client recognises the final answer.
+func responseCodeFor(op routeOperation) int {
+	switch op {
+	case bindRouteOperation:
+		return ApplicationBindResponse
+	case searchRouteOperation:
+		return ApplicationSearchResultDone
+	case modifyRouteOperation:
+		return ApplicationModifyResponse
+	case addRouteOperation:
+		return ApplicationAddResponse
+	case deleteRouteOperation:
+		return ApplicationDelResponse
+	default:
+		return ApplicationExtendedResponse
+	}
 }
